@@ -73,6 +73,12 @@ class Cache:
         if cached.attributes.index() != route.attributes.index():
             return False
 
+        # the key of a labelled / VPN route leaves the label stack out (RFC 8277 2.4: a new label binding replaces
+        # the old one for the same prefix), so a route announced again with another label has the index of the one
+        # in the cache - it is not that route, and has to be sent
+        if getattr(cached.nlri, 'labels', None) != getattr(route.nlri, 'labels', None):
+            return False
+
         # Use route.nexthop (nexthop is stored in Route, not NLRI)
         # Use getattr for safety since some NLRIs may not have nexthop
         try:
